@@ -187,7 +187,7 @@ func (t *tm30) exprGrammar() string {
 func (t *tm30) stmtGrammar() string {
 	var sb strings.Builder
 	sb.WriteString("language g30(go);\n\nlang = \"g30\"\npackage = \"verifgen/g30\"\nwriteBison = true\n")
-	sb.WriteString("\n:: lexer\n\nid: /[a-z]+/ (class)\nnum: /[0-9]+/\n'{': /\\{/\n'}': /\\}/\n';': /;/\n'=': /=/\n','  : /,/\nkw_if: /if/\nkw_else: /else/\nkw_let: /let/\ninvalid_token:\n\n:: parser\n\n")
+	sb.WriteString("\n:: lexer\n\nid: /[a-z]+/ (class)\nnum: /[0-9]+/\n'{': /\\{/\n'}': /\\}/\n';': /;/\n'=': /=/\n','  : /,/\nkw_if: /if/\nkw_else: /else/\nkw_let: /let/\nkw_do: /do/\nkw_for: /for/\ninvalid_token:\n\n:: parser\n\n")
 	if t.rng.Intn(2) == 0 {
 		sb.WriteString("%nonassoc kw_else;\n")
 	}
@@ -218,12 +218,29 @@ func (t *tm30) stmtGrammar() string {
 		alts = append(alts, ".recover ';'"+t.action())
 		t.stats["state-marker"]++
 	}
+	elseOpt := t.rng.Intn(2) == 0
+	if elseOpt {
+		// an empty production that carries a precedence
+		t.stats["empty-rule-with-prec"]++
+		alts = append(alts, "kw_do Value ElseOpt ';'"+t.action())
+	}
+	if t.rng.Intn(2) == 0 {
+		// a list over an anonymous choice: extracted into a nonterminal named Stmt$N
+		t.stats["anonymous-choice-list"]++
+		alts = append(alts, "kw_for id ('=' num | ',' id id)"+[]string{"*", "+"}[t.rng.Intn(2)]+" ';'"+t.action())
+	}
 	t.rng.Shuffle(len(alts), func(i, j int) { alts[i], alts[j] = alts[j], alts[i] })
 	sb.WriteString("    " + strings.Join(alts, "\n  | ") + "\n;\n\nValue :\n    num" + t.action() + "\n  | id (',' | num)?" + t.action() + "\n")
 	if t.rng.Intn(2) == 0 {
 		sb.WriteString("  | %empty\n")
 	}
 	sb.WriteString(";\n\nIsBlock :\n    kw_if Value '{'\n;\n")
+	if elseOpt {
+		sb.WriteString("\nElseOpt :\n    %empty %prec kw_else\n  | kw_else Stmt\n;\n")
+		if !strings.Contains(sb.String(), "%nonassoc kw_else;") {
+			return strings.Replace(sb.String(), "%input File", "%left kw_else;\n%input File", 1)
+		}
+	}
 	return sb.String()
 }
 
